@@ -12,6 +12,7 @@ import (
 	"sync"
 
 	"verif/gqlvet/core"
+	"verif/gqlvet/rules"
 )
 
 // Mutant is a compiling, suite-green edit of /repo that breaks a property.
@@ -24,6 +25,7 @@ type Mutant struct {
 	Expect     []string `json:"expect"` // rule/construct keys (prefix match) that must not be discharged
 	Reverse    bool     `json:"reverse,omitempty"`
 	Note       string   `json:"note,omitempty"`
+	Benign     bool     `json:"-"` // negative control: a behaviour-preserving refactoring, nothing may be reported
 }
 
 func loadMutants(verif string) ([]Mutant, error) {
@@ -53,6 +55,13 @@ func loadMutants(verif string) ([]Mutant, error) {
 		rel, _ := filepath.Rel(verif, filepath.Join(dir, "patch.diff"))
 		ms = append(ms, Mutant{Name: "seeded/" + filepath.Base(dir), Patch: rel, Properties: []string{meta.Property}, Expect: meta.Expect})
 	}
+	// negative controls: behaviour-preserving refactorings written by independent sub-agents (benign/README.md)
+	bens, _ := filepath.Glob(filepath.Join(verif, "benign", "*", "patch.diff"))
+	sort.Strings(bens)
+	for _, b := range bens {
+		rel, _ := filepath.Rel(verif, b)
+		ms = append(ms, Mutant{Name: "benign/" + filepath.Base(filepath.Dir(b)), Patch: rel, Benign: true})
+	}
 	return ms, nil
 }
 
@@ -68,6 +77,10 @@ func doSelfTestTo(prop, repo, verif string, w io.Writer) int {
 	for _, m := range ms {
 		if prop == "" {
 			sel = append(sel, m)
+			continue
+		}
+		if m.Benign {
+			sel = append(sel, m) // negative controls: judged on the rules of this property only
 			continue
 		}
 		for _, p := range m.Properties {
@@ -91,6 +104,20 @@ func doSelfTestTo(prop, repo, verif string, w io.Writer) int {
 		msg string
 	}
 	outs := make([]outcome, len(sel))
+	// what is not discharged on the tree itself (known findings): the reference for the negative controls
+	baseline = nil
+	propRules = nil
+	if prop != "" {
+		propRules = map[string]bool{}
+		for _, r := range rules.ForProp(prop) {
+			propRules[r.Name] = true
+		}
+	}
+	for _, m := range sel {
+		if m.Benign && baseline == nil {
+			baseline = notDischarged(self, repo)
+		}
+	}
 	sem := make(chan struct{}, 8)
 	var wg sync.WaitGroup
 	for i, m := range sel {
@@ -114,9 +141,21 @@ func doSelfTestTo(prop, repo, verif string, w io.Writer) int {
 			st = "stale"
 			stale++
 		}
+		if o.m.Benign && o.ok && st == "caught" {
+			st = "quiet"
+		}
+		if o.m.Benign && !o.ok {
+			st = "ALARM"
+		}
 		fmt.Fprintf(w, "selftest %-6s %s: %s\n", st, o.m.Name, o.msg)
 	}
-	fmt.Fprintf(w, "selftest %s: %d mutants, %d caught, %d missed, %d stale (not applicable to this tree)\n", prop, len(outs), len(outs)-fail-stale, fail, stale)
+	nBenign := 0
+	for _, o := range outs {
+		if o.m.Benign {
+			nBenign++
+		}
+	}
+	fmt.Fprintf(w, "selftest %s: %d mutants and seeded changes + %d negative controls, %d as expected, %d wrong, %d stale (not applicable to this tree)\n", prop, len(outs)-nBenign, nBenign, len(outs)-fail-stale, fail, stale)
 	if fail > 0 {
 		return 1
 	}
@@ -157,6 +196,22 @@ func runMutant(self, repo, verif string, m Mutant) (bool, string) {
 	if res.Error != "" {
 		return false, "mutant does not load: " + res.Error
 	}
+	if m.Benign {
+		var alarms []string
+		for _, o := range res.Obligations {
+			if o.Status != core.Discharged && !baseline[o.Key()] && (propRules == nil || propRules[o.Rule]) {
+				alarms = append(alarms, o.Key())
+			}
+		}
+		if len(alarms) > 0 {
+			sort.Strings(alarms)
+			if len(alarms) > 4 {
+				alarms = append(alarms[:4], "…")
+			}
+			return false, "false alarm on a behaviour-preserving refactoring: " + strings.Join(alarms, ", ")
+		}
+		return true, "nothing reported"
+	}
 	var hit []string
 	for _, e := range m.Expect {
 		found := false
@@ -172,6 +227,30 @@ func runMutant(self, repo, verif string, m Mutant) (bool, string) {
 		hit = append(hit, e)
 	}
 	return true, strings.Join(hit, ", ")
+}
+
+var (
+	baseline  map[string]bool
+	propRules map[string]bool // rules of the property under test (nil: all)
+)
+
+// notDischarged runs every rule on the tree itself and returns the keys that are not discharged there.
+func notDischarged(self, repo string) map[string]bool {
+	out := map[string]bool{}
+	cmd := exec.Command(self, "-all", "-json", "-repo", repo)
+	cmd.Env = append(os.Environ(), "GOCACHE="+goCache())
+	b, _ := cmd.Output()
+	var res struct {
+		Obligations []core.Obligation `json:"obligations"`
+	}
+	if json.Unmarshal(b, &res) == nil {
+		for _, o := range res.Obligations {
+			if o.Status != core.Discharged {
+				out[o.Key()] = true
+			}
+		}
+	}
+	return out
 }
 
 func goCache() string {
